@@ -69,7 +69,7 @@ theorem unlinkat_inv {d : Fd} {n : Bytes} {f : Nat} {h h' : Hist} {x : Except Er
     x = .error (.os EBADF) ∨
     ∃ resp, (h ++ [(Call.unlinkat d n f, resp)]) <+: h' ∧
       ((resp = .unit ∧ x = .ok ()) ∨
-       (∃ e, resp = .err e ∧ (x = .error (.os e) ∨ ∃ s, x = .error (.panic s))) ∨
+       (∃ e, resp = .err e ∧ x = .error (.os e)) ∨
        (∃ s, x = .error (.badResp s))) := by
   unfold Sys.unlinkat at hr
   simp only [M.bind_def] at hr
@@ -108,13 +108,11 @@ theorem unlinkat_witness {d : Fd} {n : Bytes} {f : Nat} {h h' : Hist} {x : Excep
     rcases hcase with ⟨hresp, _⟩ | ⟨e, hresp, hxe⟩ | ⟨s, hxb⟩
     · exact ⟨h, (Call.unlinkat d n f, resp), t, by rw [← ht]; simp, List.prefix_refl _, Or.inl ⟨f, by rw [hresp]⟩⟩
     · rcases hx with hx | hx
-      · rw [hx] at hxe; rcases hxe with hxe | ⟨s, hxe⟩ <;> cases hxe
+      · rw [hx] at hxe; cases hxe
       · rw [hx] at hxe
-        rcases hxe with hxe | ⟨s, hxe⟩
-        · cases hxe
-          exact ⟨h, (Call.unlinkat d n f, resp), t, by rw [← ht]; simp, List.prefix_refl _,
-            Or.inr (Or.inl ⟨f, by rw [hresp]⟩)⟩
-        · cases hxe
+        cases hxe
+        exact ⟨h, (Call.unlinkat d n f, resp), t, by rw [← ht]; simp, List.prefix_refl _,
+          Or.inr (Or.inl ⟨f, by rw [hresp]⟩)⟩
     · rcases hx with hx | hx <;> rw [hx] at hxb <;> cases hxb
 
 /-- `remove_inode` of `utils/dir.rs` ends `ok` or with `ENOENT` only on the kernel's word -/
@@ -223,11 +221,10 @@ theorem openat_enoent_witness {dir : Fd} {name : Bytes} {fl m : Nat} {h h' : His
       cases resp with
       | fd k => obtain ⟨_, hxx⟩ := ret_inv hc2; cases hxx
       | err e =>
-        rcases failWith_inv _ _ _ _ _ hc2 with hxx | ⟨s, hxx⟩
-        · cases hxx
-          exact ⟨h, (Call.openat dir name (fl ||| O_NOFOLLOW ||| O_CLOEXEC ||| O_NOCTTY) m, Resp.err ENOENT), t,
-            by rw [← ht]; simp, List.prefix_refl _, Or.inr (Or.inr ⟨_, _, rfl⟩)⟩
-        · cases hxx
+        have hxx := failWith_inv _ _ _ _ _ hc2
+        cases hxx
+        exact ⟨h, (Call.openat dir name (fl ||| O_NOFOLLOW ||| O_CLOEXEC ||| O_NOCTTY) m, Resp.err ENOENT), t,
+          by rw [← ht]; simp, List.prefix_refl _, Or.inr (Or.inr ⟨_, _, rfl⟩)⟩
       | _ => obtain ⟨_, hxx⟩ := ret_inv hc2; cases hxx
     · obtain ⟨yy, _, hyy⟩ := call_ok_inv hc1
       cases hyy
